@@ -21,6 +21,17 @@ Vocabulary
 open Complex Matrix
 namespace Qib.Fermi
 
+/-! ### flat indices -/
+
+/-- the flat index `natOfBits r` of an occupation pattern `r` (site 0 most significant, NumPy's `kron` order) ranges
+bijectively over `0 … 2^L - 1`, and site `k`'s occupation is bit `L-1-k` of it – so reading an executable matrix at
+these indices (`IMat.toM`, `MtoM`) reads all of its entries -/
+theorem C10_flat_index (L : ℕ) :
+    (∀ r : Fin L → Bool, natOfBits L r < 2 ^ L) ∧ Function.Injective (natOfBits L) ∧
+    (∀ k < 2 ^ L, ∃ r : Fin L → Bool, natOfBits L r = k) ∧
+    (∀ (r : Fin L → Bool) (k : Fin L), (natOfBits L r).testBit (L - 1 - k) = r k) :=
+  ⟨natOfBits_lt L, natOfBits_injective L, natOfBits_surjective L, fun r k => bitAt_natOfBits L r k⟩
+
 /-! ### the reference ladder matrices are the ones the code builds -/
 
 /-- `clist[i]` (the Kronecker loop of lines 206-215) is `1 ⊗ … ⊗ U ⊗ Z ⊗ … ⊗ Z` with `U` on site `i`, read at flat indices
@@ -170,6 +181,21 @@ theorem C10_asMatrix_valueError (op : FieldOp) (f : FieldD) (hf : op.fields = [f
 
 /-! ### adjoint, sum, product -/
 
+/-- `IFODesc(field, otype)` accepts exactly the operator types of the field's particle type (anything on a qubit field),
+rejects the rest with `ValueError`, and `adjoint()` of an accepted description is accepted again -/
+theorem C10_ifo_make (f : FieldD) (o : IFOType) :
+    (IFODesc.make f o = .ok ⟨f, o⟩ ∨ IFODesc.make f o = .error .valueError) ∧
+    (IFODesc.make f o = .ok ⟨f, o⟩ ↔
+      match f.ptype with
+      | .boson => o = .bosonCreate ∨ o = .bosonAnnihil
+      | .fermion => o = .fermiCreate ∨ o = .fermiAnnihil
+      | .majorana => o = .majoranaRe ∨ o = .majoranaIm
+      | .qubit => True) ∧
+    (IFODesc.make f o = .ok ⟨f, o⟩ → IFODesc.make f o.adjoint = .ok (IFODesc.adjoint ⟨f, o⟩)) ∧
+    o.adjoint.adjoint = o := by
+  obtain ⟨id, pt, n⟩ := f
+  cases pt <;> cases o <;> simp [IFODesc.make, IFODesc.adjoint, IFOType.adjoint]
+
 /-- the constructor accepts exactly `ndim = len(opdesc)`; `adjoint` and `@` preserve it -/
 theorem C10_make_iff (ds : List IFODesc) (c : Tensor) (t : Term) :
     Term.make ds c = .ok t ↔ c.ndim = ds.length ∧ t = ⟨ds, c⟩ := by
@@ -180,6 +206,30 @@ theorem C10_make_iff (ds : List IFODesc) (c : Tensor) (t : Term) :
 
 theorem C10_wf_closed (a b : Term) (ha : a.WF) (hb : b.WF) : a.adjoint.WF ∧ (a.mul b).WF :=
   ⟨Term.adjoint_wf a ha, Term.mul_wf a b ha hb⟩
+
+/-- `fields()`: no repetitions, contains exactly the fields of the operator descriptions; in particular it is `[f]`
+iff some description exists and all of them live on `f` -/
+theorem C10_fields_spec (op : FieldOp) :
+    op.fields.Nodup ∧ (∀ g, g ∈ op.fields ↔ ∃ t ∈ op.terms, ∃ d ∈ t.opdesc, d.field = g) ∧
+    (∀ f, op.fields = [f] ↔ (∃ t ∈ op.terms, t.opdesc ≠ []) ∧ ∀ t ∈ op.terms, ∀ d ∈ t.opdesc, d.field = f) :=
+  ⟨FieldOp.fields_nodup op, FieldOp.mem_fields op, FieldOp.fields_eq_singleton_iff op⟩
+
+/-- what `adjoint()` does to the data: operators reversed and flipped, the coefficient array has the reversed shape and
+`adjoint.coeffs[idx] = conj(coeffs[reversed idx])` (that is `coeffs.conj().T`) -/
+theorem C10_adjoint_data (t : Term) :
+    t.adjoint.opdesc = t.opdesc.reverse.map IFODesc.adjoint ∧ t.adjoint.coeffs.shape = t.coeffs.shape.reverse ∧
+    t.adjoint.coeffs.WF ∧
+    ∀ idx, List.Forall₂ (· < ·) idx t.coeffs.shape.reverse → t.adjoint.coeffs.get idx = (t.coeffs.get idx.reverse).conj :=
+  ⟨rfl, rfl, Tensor.conjT_wf _, fun _ h => Tensor.get_conjT t.coeffs h⟩
+
+/-- what `@` does to the data: operators concatenated, shapes concatenated and
+`(a @ b).coeffs[i1 ++ i2] = a.coeffs[i1] * b.coeffs[i2]` (the outer product, computed as `np.kron` of the flattened arrays) -/
+theorem C10_mul_data (a b : Term) :
+    (a.mul b).opdesc = a.opdesc ++ b.opdesc ∧ (a.mul b).coeffs.shape = a.coeffs.shape ++ b.coeffs.shape ∧
+    (a.mul b).coeffs.WF ∧
+    ∀ i1 i2, List.Forall₂ (· < ·) i1 a.coeffs.shape → List.Forall₂ (· < ·) i2 b.coeffs.shape →
+      (a.mul b).coeffs.get (i1 ++ i2) = a.coeffs.get i1 * b.coeffs.get i2 :=
+  ⟨rfl, rfl, Tensor.outer_wf _ _, fun _ _ h1 h2 => Tensor.get_outer a.coeffs b.coeffs h1 h2⟩
 
 /-- `adjoint()` of a term (reversed, flipped operators; `coeffs.conj().T`) has the adjoint matrix -/
 theorem C10_term_adjoint_mat (L : ℕ) (t : Term) (h : t.WF) : t.adjoint.mat L = (t.mat L)ᴴ := Term.adjoint_mat L t h
@@ -217,23 +267,26 @@ theorem C10_exec_mat (f : FieldD) (op : FieldOp) (h : op.Good f) :
     (∃ M, op.asMatrix = .ok M ∧ M.n = 2 ^ f.nsites ∧ M.m = 2 ^ f.nsites) ∧ op.execM f.nsites = op.mat f.nsites :=
   FieldOp.execM_eq f op h
 
-/-- `op.adjoint().as_matrix() = op.as_matrix()ᴴ` -/
+/-- `op.adjoint().as_matrix()` succeeds and equals `op.as_matrix()ᴴ` -/
 theorem C10_exec_adjoint (f : FieldD) (op : FieldOp) (h : op.Good f) :
-    op.adjoint.execM f.nsites = (op.execM f.nsites)ᴴ := by
-  rw [(FieldOp.execM_eq f _ (FieldOp.adjoint_good f op h)).2, (FieldOp.execM_eq f op h).2,
-    FieldOp.adjoint_mat _ op h.wf]
+    (∃ M, op.adjoint.asMatrix = .ok M) ∧ op.adjoint.execM f.nsites = (op.execM f.nsites)ᴴ := by
+  have g := FieldOp.adjoint_good f op h
+  obtain ⟨⟨M, e, _⟩, hm⟩ := FieldOp.execM_eq f _ g
+  exact ⟨⟨M, e⟩, by rw [hm, (FieldOp.execM_eq f op h).2, FieldOp.adjoint_mat _ op h.wf]⟩
 
-/-- `(A + B).as_matrix() = A.as_matrix() + B.as_matrix()` -/
+/-- `(A + B).as_matrix()` succeeds and equals `A.as_matrix() + B.as_matrix()` -/
 theorem C10_exec_add (f : FieldD) (a b : FieldOp) (ha : a.Good f) (hb : b.Good f) :
-    (a.add b).execM f.nsites = a.execM f.nsites + b.execM f.nsites := by
-  rw [(FieldOp.execM_eq f _ (FieldOp.add_good f a b ha hb)).2, (FieldOp.execM_eq f a ha).2,
-    (FieldOp.execM_eq f b hb).2, FieldOp.add_mat]
+    (∃ M, (a.add b).asMatrix = .ok M) ∧ (a.add b).execM f.nsites = a.execM f.nsites + b.execM f.nsites := by
+  have g := FieldOp.add_good f a b ha hb
+  obtain ⟨⟨M, e, _⟩, hm⟩ := FieldOp.execM_eq f _ g
+  exact ⟨⟨M, e⟩, by rw [hm, (FieldOp.execM_eq f a ha).2, (FieldOp.execM_eq f b hb).2, FieldOp.add_mat]⟩
 
-/-- `(A @ B).as_matrix() = A.as_matrix() @ B.as_matrix()` -/
+/-- `(A @ B).as_matrix()` succeeds and equals `A.as_matrix() @ B.as_matrix()` -/
 theorem C10_exec_mul (f : FieldD) (a b : FieldOp) (ha : a.Good f) (hb : b.Good f) (hbne : b.terms ≠ []) :
-    (a.mul b).execM f.nsites = a.execM f.nsites * b.execM f.nsites := by
-  rw [(FieldOp.execM_eq f _ (FieldOp.mul_good f a b ha hb hbne)).2, (FieldOp.execM_eq f a ha).2,
-    (FieldOp.execM_eq f b hb).2, FieldOp.mul_mat _ a b ha.wf]
+    (∃ M, (a.mul b).asMatrix = .ok M) ∧ (a.mul b).execM f.nsites = a.execM f.nsites * b.execM f.nsites := by
+  have g := FieldOp.mul_good f a b ha hb hbne
+  obtain ⟨⟨M, e, _⟩, hm⟩ := FieldOp.execM_eq f _ g
+  exact ⟨⟨M, e⟩, by rw [hm, (FieldOp.execM_eq f a ha).2, (FieldOp.execM_eq f b hb).2, FieldOp.mul_mat _ a b ha.wf]⟩
 
 /-- the elementary operators `a_i`, `a†_i` as field operators (one term, one operator, coefficient vector `e_i`):
 `as_matrix()` returns the reference ladder matrix -/
